@@ -125,6 +125,11 @@ func c08Case(w *core.Worker, i int) {
 			} else {
 				valid = false
 			}
+		case "subquery2":
+			// the FROM clause names the table twice under one name: rejected while (or after) the table is loaded for the update —
+			// whatever the transaction did to the table before stays
+			sql = []string{fmt.Sprintf("UPDATE %s SET c2 = 'x' FROM %s CROSS JOIN %s;", tn, tn, tn), fmt.Sprintf("DELETE %s FROM %s JOIN %s ON 1 = 1;", tn, tn, tn),
+				fmt.Sprintf("UPDATE %s SET c2 = 'x' FROM %s JOIN u %s ON 1 = 1;", tn, tn, tn), fmt.Sprintf("DELETE %s FROM u %s, %s;", tn, tn, tn)}[(k+size)%4]
 		case "divzero":
 			sql = fmt.Sprintf("UPDATE %s SET %s.c1 = 10 / (%s.id - %d) FROM %s JOIN u ON %s.id >= u.id;", tn, tn, tn, k, tn, tn)
 			sql = fmt.Sprintf("UPDATE %s SET %s.c1 = 10 / (%s.id - %d) FROM %s JOIN one ON 1 = 1;", tn, tn, tn, k, tn)
